@@ -117,6 +117,7 @@ inductive SOp where
   | waitStart         -- worker: wait until main has finished its set-up (fill, early cancel)
   | waitParked        -- main: wait until every worker has entered its `Acquire` (or finished)
   | waitDone          -- main: wait until every worker has finished
+  | waitOk (k : Nat)  -- main: wait until `k` calls of `Acquire` have succeeded
 
 structure SThread where
   ops : List SOp
@@ -153,6 +154,10 @@ def programs (cap : Nat) (mode : String) (n rounds : Nat) : Option (Array SThrea
   | "xrel" =>
     some ((workers fun _ => .waitStart :: rep rounds [.rel]).push
       { ops := rep cap [.acq 0] ++ [.waitDone] })
+  | "lastslot" =>
+    -- racers for the last free slot; the winner keeps it, then the context is cancelled
+    some ((workers fun _ => [.waitStart, .acq 1]).push
+      { ops := rep (cap - 1) [.acq 0] ++ [.waitOk cap, .cancel 1, .waitDone] ++ rep cap [.rel] })
   | "idlerel" =>
     some ((workers fun _ => []).push
       { ops := rep rounds [.rel] ++ rep cap [.acq 0] ++ [.cancel 1, .acq 1] ++ rep cap [.rel] })
@@ -194,6 +199,7 @@ def actionsOf (r : SRun) (n i : Nat) (th : SThread) : List SAct :=
   | .waitStart :: _ => if mainSetUp r n then [.skip i] else []
   | .waitParked :: _ => if workersParked r n then [.skip i] else []
   | .waitDone :: _ => if workersDone r n then [.skip i] else []
+  | .waitOk k :: _ => if r.ok ≥ k then [.skip i] else []
 
 def applyAct (r : SRun) : SAct → SRun
   | .skip i =>
